@@ -434,6 +434,18 @@ RULE = {
            'population enumerates every integer in [-70000, 70000] in both '
            'states at top level and nested.' + _NT,
 }
+_POPS_B = (' Also: every run executes in a freshly forked child of a '
+           'library-pristine process; programs repeat recent calls, pair '
+           'equal-but-different values (0.0/-0.0, Decimal exponents, '
+           '1/True/1.0, both folds of a repeated hour) in one history, edit '
+           'and re-marshal held objects (mutate, setattr, twin-encode '
+           'oracle); populations long (150-400 ops) and long_faulty '
+           '(300-700 ops, half of them decodes of damaged bytes, with the '
+           'same failing decode hammered 40-200 times); schedules are '
+           'explicit step lists (coin-flip or PCT) plus the novel-line '
+           'policy.')
+for _k in list(RULE):
+    RULE[_k] = RULE[_k] + _POPS_B
 _COMMON = [
     'sampling, not proof: a clean batch is evidence over the explored seeds '
     'and schedules',
